@@ -52,6 +52,15 @@ def gen_case(rng, kind):
     n = int(rng.integers(100, 401))
     x = gens.signal(rng, fam, n)
     io = gens.imf_opts(rng)
+    if rng.random() < .08:
+        # events of one sign on a flat baseline: several strict maxima, fewer than two strict minima - the first unmasked extraction
+        # hands the recording back unchanged (nothing more to sift), which says nothing about whether it oscillates
+        fam = 'one-signed-impulses'
+        x = np.full(n, float(gens.pick(rng, [0.0, 0.5])))
+        for i in rng.choice(np.arange(5, n - 5, 7), int(rng.integers(3, 9)), replace=False):
+            x[int(i)] += float(rng.uniform(.5, 2))
+    elif rng.random() < .1:
+        io['energy_thresh'] = float(gens.pick(rng, [50, 20]))       # the documented energy-ratio option: extraction ends early on a clean oscillation
     eo = gens.env_opts(rng, 'splrep' if rng.random() < .7 else None)
     xo = gens.ext_opts(rng)
     if rng.random() < .15:
@@ -187,7 +196,9 @@ def check_mask_sift(ctx, tr, case):
         if src == 'float':
             z0 = mf
         else:
-            first, _ = S.get_next_imf(x[:, None], envelope_opts=eo, extrema_opts=xo, **io)
+            # (the estimate is made from the recording in its own precision: a float32 recording that is handed back unchanged by the
+            # first extraction stays float32)
+            first, _ = S.get_next_imf(np.asarray(xin)[:, None].copy(), envelope_opts=eo, extrema_opts=xo, **io)
             if src == 'zc':
                 nzc = int((np.diff(np.sign(first[:, 0])) != 0).sum())
                 z0 = nzc / len(x) / 4
